@@ -88,6 +88,28 @@ def gen_cases(ctx, rng):
                       "ops": [{"at": rng.range(50, 900) * L.MS, "op": "update", "name": "x", "body": '{"toxicity": %d}' % (1 - a)}],
                       "horizon": 3600 * 1000 * L.MS, "seed": 9000 + i, "c14": "update_01", "expect": [bool(1 - a)], "backpressured": True})
         stats["update_01_backpressured"] += 1
+    # toxicity changed on an established connection, then a neighbouring toxic is added behind the marker or the one behind it is
+    # removed (both restart the marker's stage): the stage must decide with the toxicity the API lists now, not with the one the
+    # connection started under
+    stats["update_01_then_neighbour"] = 0
+    for i in range(24 if ctx.tier == "quick" else 400):
+        m = marker(rng)
+        a = rng.choice([0, 1])
+        b = 1 - a if i % 4 else a
+        m["toxicity"] = a
+        how = rng.choice(["add_behind", "remove_behind", "add_behind_twice"])
+        chain = [m] + ([L.tx("noop", name="y")] if how == "remove_behind" else [])
+        ops = [{"at": 5 * L.MS, "op": "update", "name": "x", "body": '{"toxicity": %d}' % b}]
+        if how == "remove_behind":
+            ops.append({"at": 8 * L.MS, "op": "remove", "name": "y"})
+        else:
+            ops.append({"at": 8 * L.MS, "op": "add", "toxic": L.tx("noop", name="z")})
+            if how == "add_behind_twice":
+                ops.append({"at": 11 * L.MS, "op": "add", "toxic": L.tx("latency", name="w", latency=3, jitter=0)})
+        src = [{"at": 20 * L.MS + 7, "n": rng.range(1, 500)}, {"at": 900 * L.MS, "close": True}]
+        cases.append({"dir": rng.choice(["upstream", "downstream"]), "chain": chain, "src": src, "links": rng.range(1, 3), "ops": ops,
+                      "horizon": 3600 * 1000 * L.MS, "seed": 12000 + i, "c14": "update_01", "expect": [bool(b)]})
+        stats["update_01_then_neighbour"] += 1
     return cases, stats
 
 
